@@ -169,6 +169,10 @@ func runC01(e *core.Env) error {
 				if settle {
 					op = 9
 				}
+				if !settle && rr.Chance(1, 12) {
+					w.prune(1 + rr.Intn(3)) // old positions are deleted while the task is indexing
+					continue
+				}
 				switch {
 				case op < 3:
 					w.node.With(func(c *simnode.Chain) {
